@@ -205,6 +205,18 @@ impl Distance {
     }
 }
 
+/// Verification-only raw access to the 32 key bytes (no hashing).
+#[cfg(libp2p_verif)]
+impl KeyBytes {
+    pub fn verif_from_raw(bytes: [u8; 32]) -> Self {
+        KeyBytes(Array::from(bytes))
+    }
+
+    pub fn verif_raw(&self) -> [u8; 32] {
+        self.0.into()
+    }
+}
+
 #[cfg(test)]
 mod tests {
     use quickcheck::*;
